@@ -60,6 +60,9 @@ func (e *Env) Yields() uint64 {
 
 // Yield is a scheduling point at a seam (site classes of DESIGN §3.3).
 func (e *Env) Yield(site string) {
+	if onLibraryGoroutine() {
+		return
+	}
 	if e.sched != nil {
 		e.sched.yield(e, site, false)
 		return
@@ -69,6 +72,9 @@ func (e *Env) Yield(site string) {
 
 // FaultYield is a yield right after a fault event: switches are biased to land here.
 func (e *Env) FaultYield(site string) {
+	if onLibraryGoroutine() {
+		return
+	}
 	if e.sched != nil {
 		e.sched.yield(e, site, true)
 		return
